@@ -167,6 +167,74 @@ func TestVnet(t *testing.T) {
 	})
 }
 
+func TestVnetNAT(t *testing.T) {
+	// a NAT with a short mapping lifetime between two routers: bindings are created, refreshed by more traffic, expire while
+	// idle and are created again, with inbound replies in between
+	wan, err := vnet.NewRouter(&vnet.RouterConfig{CIDR: "1.2.3.0/24", LoggerFactory: lf{}})
+	if err != nil {
+		t.Fatal(err)
+	}
+	lan, err := vnet.NewRouter(&vnet.RouterConfig{CIDR: "192.168.0.0/24", StaticIPs: []string{"1.2.3.9"}, LoggerFactory: lf{},
+		NATType: &vnet.NATType{MappingBehavior: vnet.EndpointAddrPortDependent, FilteringBehavior: vnet.EndpointAddrPortDependent,
+			MappingLifeTime: 5 * time.Millisecond}})
+	if err != nil {
+		t.Fatal(err)
+	}
+	srv, _ := vnet.NewNet(&vnet.NetConfig{StaticIPs: []string{"1.2.3.4"}})
+	h1, _ := vnet.NewNet(&vnet.NetConfig{})
+	h2, _ := vnet.NewNet(&vnet.NetConfig{})
+	_ = wan.AddNet(srv)
+	_ = lan.AddNet(h1)
+	_ = lan.AddNet(h2)
+	_ = wan.AddRouter(lan)
+	_ = wan.Start()
+	sc, err := srv.ListenPacket("udp4", "1.2.3.4:7000")
+	if err != nil {
+		t.Fatal(err)
+	}
+	stop := make(chan struct{})
+	go func() { // echo
+		buf := make([]byte, 1500)
+		for {
+			_ = sc.SetReadDeadline(time.Now().Add(5 * time.Millisecond))
+			n, from, err := sc.ReadFrom(buf)
+			if err == nil {
+				_, _ = sc.WriteTo(buf[:n], from)
+			}
+			select {
+			case <-stop:
+				return
+			default:
+			}
+		}
+	}()
+	par(4, func(i int) {
+		h := h1
+		if i%2 == 1 {
+			h = h2
+		}
+		c, err := h.ListenPacket("udp4", "0.0.0.0:0")
+		if err != nil {
+			return
+		}
+		buf := make([]byte, 1500)
+		for k := 0; k < 12; k++ {
+			_, _ = c.WriteTo([]byte{byte(i), byte(k)}, &net.UDPAddr{IP: net.ParseIP("1.2.3.4"), Port: 7000})
+			_ = c.SetReadDeadline(time.Now().Add(2 * time.Millisecond))
+			_, _, _ = c.ReadFrom(buf)
+			if k%4 == 3 {
+				time.Sleep(12 * time.Millisecond) // idle: the binding expires
+			}
+		}
+		_ = c.Close()
+	})
+	time.Sleep(20 * time.Millisecond)
+	close(stop)
+	time.Sleep(10 * time.Millisecond)
+	_ = sc.Close()
+	_ = wan.Stop()
+}
+
 func TestUDPListener(t *testing.T) {
 	for round := 0; round < 6; round++ {
 		lc := udp.ListenConfig{}
@@ -204,7 +272,18 @@ func TestUDPListener(t *testing.T) {
 						buf := make([]byte, 64)
 						_ = c.SetReadDeadline(time.Now().Add(20 * time.Millisecond))
 						_, _ = c.Read(buf)
-						_, _ = c.Write([]byte{9})
+						// a writer, and deadlines set from other goroutines (net.Conn allows that)
+						par(3, func(j int) {
+							switch j {
+							case 0:
+								_, _ = c.Write([]byte{9})
+								_, _ = c.Write([]byte{10})
+							case 1:
+								_ = c.SetWriteDeadline(time.Now().Add(time.Second))
+							default:
+								_ = c.SetDeadline(time.Now().Add(time.Second))
+							}
+						})
 						_ = c.Close()
 					}()
 				}
